@@ -1,0 +1,5 @@
+//go:build !verif
+
+package atp
+
+func vh(string, ...any) {}
